@@ -398,3 +398,63 @@ pub fn check_program(case: &str) -> Result<(), String> {
     }
     Ok(())
 }
+
+// ---- C02: the unsafe walk of set_no_backtracking() on real nodes (bounded check of the specification `walked`) -------------
+// case: "len=<chain length 0..5>;heads=<bitmask: which chain nodes have a head node>;hh=<bitmask: which of those heads have a head>"
+pub fn enum_walk(_seed: u64) -> Vec<String> {
+    let mut out = vec![];
+    for len in 0..=5usize { for heads in 0..(1u32 << (len + 1)) { for hh in [0u32, heads, heads & 0b10101] {
+        out.push(format!("len={};heads={};hh={}", len, heads, hh));
+    } } }
+    out
+}
+pub fn check_walk(case: &str) -> Result<(), String> {
+    use std::cell::RefCell;
+    let mut len = 0usize; let mut heads = 0u32; let mut hh = 0u32;
+    for kv in case.split(';') {
+        let (k, v) = kv.split_once('=').ok_or("bad case")?;
+        match k { "len" => len = v.parse().map_err(|_| "bad case")?, "heads" => heads = v.parse().map_err(|_| "bad case")?, "hh" => hh = v.parse().map_err(|_| "bad case")?, _ => return Err("bad case".into()) }
+    }
+    let kb = KnowledgeBase::new();
+    let g = Rc::new(Goal::Nil);
+    let mk = || Rc::new(RefCell::new(SolutionNode::new(Rc::clone(&g), &kb)));
+    // chain[0] is the node of the cut, chain[i + 1] the parent of chain[i]; the last one has no parent
+    let chain: Vec<_> = (0..=len).map(|_| mk()).collect();
+    for i in 0..len { chain[i].borrow_mut().parent_node = Some(Rc::clone(&chain[i + 1])); }
+    let mut head_nodes = vec![];
+    let mut head_heads = vec![];
+    for i in 0..=len {
+        if heads & (1 << i) != 0 {
+            let h = mk();
+            h.borrow_mut().parent_node = Some(Rc::clone(&chain[i]));
+            if hh & (1 << i) != 0 { let x = mk(); x.borrow_mut().parent_node = Some(Rc::clone(&h)); h.borrow_mut().head_sn = Some(Rc::clone(&x)); head_heads.push(x); }
+            chain[i].borrow_mut().head_sn = Some(Rc::clone(&h));
+            head_nodes.push((i, h));
+        }
+    }
+    // nodes that point into the chain without being on it: a child and a tail of every chain node, and a node above nothing
+    let mut strangers = vec![];
+    for i in 0..=len {
+        let c = mk(); c.borrow_mut().parent_node = Some(Rc::clone(&chain[i])); c.borrow_mut().head_sn = Some(Rc::clone(&chain[0]));
+        chain[i].borrow_mut().tail_sn = Some(Rc::clone(&c));
+        strangers.push(c);
+    }
+    let snapshot = |n: &Rc<RefCell<SolutionNode>>| { let b = n.borrow(); (b.more_solutions, b.rule_index, b.number_facts_rules, b.child.is_some(), b.tail_sn.is_some(), b.head_sn.is_some(), b.parent_node.is_some(), b.operator_tail.is_some(), b.ss.len()) };
+    let before: Vec<_> = chain.iter().chain(head_nodes.iter().map(|p| &p.1)).chain(head_heads.iter()).chain(strangers.iter()).map(|n| snapshot(n)).collect();
+
+    chain[0].borrow_mut().set_no_backtracking();
+
+    for (i, n) in chain.iter().enumerate() { if !n.borrow().no_backtracking { return Err(format!("chain node {} (0 = the cut) is not flagged", i)); } }
+    for (i, h) in &head_nodes {
+        // the head of the cut's own node is not part of the walk (the walk starts at the parent); the heads of its ancestors are
+        let expect = *i >= 1;
+        if h.borrow().no_backtracking != expect { return Err(format!("head node of chain node {}: flagged = {}, expected {}", i, h.borrow().no_backtracking, expect)); }
+    }
+    for x in &head_heads { if x.borrow().no_backtracking { return Err("the head of a head node was flagged".into()); } }
+    for s in &strangers { if s.borrow().no_backtracking { return Err("a node that points into the chain (a tail node) was flagged".into()); } }
+    let after: Vec<_> = chain.iter().chain(head_nodes.iter().map(|p| &p.1)).chain(head_heads.iter()).chain(strangers.iter()).map(|n| snapshot(n)).collect();
+    if before != after { return Err("the walk changed a field other than no_backtracking".into()); }
+    // break the Rc cycles made above (tail_sn <-> parent_node) so that the nodes are freed
+    for n in &chain { n.borrow_mut().tail_sn = None; n.borrow_mut().head_sn = None; }
+    Ok(())
+}
